@@ -225,7 +225,8 @@ impl Engine for SeqEngine {
                 }
             } else {
                 match w.below(30) {
-                    0..=7 => Op::Insert { key, val: gen_val(&mut w, &p, blocks_cap), ts: gen_ts_for(&mut w, &p), ttl: 0, bytes: w.chance(1, 2) },
+                    // (one insert in sixteen writes the value the key already holds)
+                    0..=7 => Op::Insert { key, val: if roll % 16 == 5 { Val { len: 0, kind: ValKind::Plain } } else { gen_val(&mut w, &p, blocks_cap) }, ts: gen_ts_for(&mut w, &p), ttl: 0, bytes: w.chance(1, 2) },
                     8..=12 => Op::Get { key, bytes: w.chance(1, 2) },
                     13 => Op::GetSize { key },
                     14 => Op::Contains { key },
@@ -240,7 +241,7 @@ impl Engine for SeqEngine {
                     },
                     21..=23 => Op::Incr {
                         key,
-                        delta: *w.pick(&[1i64, -1, 5, 1000, i64::MAX, i64::MIN]),
+                        delta: *w.pick(&[1i64, -1, 5, 1000, i64::MAX, i64::MIN, 0]),
                         ts: gen_ts_for(&mut w, &p),
                         ttl: if w.chance(1, 8) { gen_ttl(&mut w) } else { 0 },
                     },
